@@ -560,6 +560,34 @@ func checkC06(c *Ctx, r *Report) {
 		})
 	}
 	r.Floor("C06.R1", nStoreV, 2, "stores of the entry's validators")
+	// ... and the client cannot take the validators out again: the headers it nominates in its Connection
+	// field are removed from the request on entry, before the proxy adds anything of its own — the removal at
+	// send time then finds no client-supplied Connection list that could name If-None-Match / If-Modified-Since
+	for _, f := range c.FuncsNamed("(*" + proxyPkg + ".Proxy).handleHTTP") {
+		reqP := f.Params[len(f.Params)-1]
+		isEarlyStrip := func(in ssa.Instruction) bool {
+			x, ok := in.(*ssa.Call)
+			if !ok || calleeName(x) != proxyPkg+".removeHopByHopHeaders" {
+				return false
+			}
+			root, pth := fieldPath(callArgs(x)[0])
+			return resolveVal(root) == ssa.Value(reqP) && len(pth) == 1 && pth[0] == "Header"
+		}
+		var first ssa.Instruction
+		eachInstr(f, func(in ssa.Instruction) {
+			if first != nil {
+				return
+			}
+			if x, ok := in.(*ssa.Call); ok {
+				switch calleeName(x) {
+				case headersPkg + ".ParseHeaderDirective", cachePkg + ".MakeFromRequest", "(*" + proxyPkg + ".Proxy).processRequest":
+					first = in
+				}
+			}
+		})
+		ok := first != nil && mustPassBefore(f, first, isEarlyStrip, nil)
+		r.Check(ok, "C06.R1", "client-nominated hop-by-hop headers are removed on entry", c.Pos(f.Pos()), "removeHopByHopHeaders(req.Header) precedes header parsing, keying and processing", "the request's Connection list is still in place when the proxy adds its validators: `Connection: If-None-Match, If-Modified-Since` from the client makes the send-time hop-by-hop removal delete the stored validators, and the stale entry is re-downloaded unconditionally")
+	}
 
 	// ---- R2
 	for _, f := range c.FuncsNamed("(*" + proxyPkg + ".Proxy).handleHTTP") {
